@@ -8,23 +8,51 @@ bool integerFitsKeyword(fitsfile* fits, const char* key, uint32_t& result){
 	fits_read_keyword(fits, key, value, NULL, &status);
 	if (status != 0)
 		return (false);
+	//The value is parsed here rather than by CFITSIO (whose conversion
+	//formats an error message into a fixed buffer for text it cannot
+	//convert). Like CFITSIO's, the conversion takes any numeric literal with
+	//an integral value, also one written as a real number (2.0, 2.E+00) or
+	//as a string ('2'), as other tools produce them.
+	char text[FLEN_VALUE];
+	size_t n = 0;
 	const char* p = value;
 	while (*p == ' ')
 		p++;
-	if (*p == '+')
+	bool quoted = (*p == '\'');
+	if (quoted)
 		p++;
-	uint64_t v = 0;
-	size_t digits = 0;
-	for ( ; *p >= '0' && *p <= '9'; p++) {
-		if (++digits > 10)
+	for ( ; *p != '\0' && !(quoted && *p == '\''); p++) {
+		char ch = *p;
+		if (ch == 'D' || ch == 'd') //FORTRAN style exponent
+			ch = 'E';
+		if (!((ch >= '0' && ch <= '9') || ch == '+' || ch == '-' || ch == '.'
+		      || ch == 'E' || ch == 'e' || ch == ' '))
 			return (false);
-		v = 10*v + (*p - '0');
+		text[n++] = ch;
 	}
-	while (*p == ' ')
+	if (quoted) {
+		if (*p != '\'')
+			return (false);
 		p++;
-	if (*p != '\0' || digits == 0 || v > 0xFFFFFFFFull)
+		while (*p == ' ')
+			p++;
+		if (*p != '\0')
+			return (false);
+	}
+	while (n > 0 && text[n-1] == ' ')
+		n--;
+	text[n] = '\0';
+	const char* begin = text;
+	while (*begin == ' ')
+		begin++;
+	if (*begin == '\0')
 		return (false);
-	result = v;
+	char* end = NULL;
+	double v = strtod(begin, &end);
+	if (end == begin || *end != '\0' || !(v >= 0 && v <= 4294967295.0)
+	    || v != std::floor(v))
+		return (false);
+	result = (uint32_t)v;
 	return (true);
 }
 	
